@@ -8,6 +8,7 @@ import HavocVerif.Driver.C07
 import HavocVerif.Driver.C08
 import HavocVerif.Driver.C09
 import HavocVerif.Driver.C10
+import HavocVerif.Driver.C11
 import HavocVerif.Driver.C12
 import HavocVerif.Driver.C15
 /-
@@ -36,6 +37,7 @@ def stepperFor (prop : String) : Option Stepper :=
   | "C08" => some ⟨DriverC08.St, {}, DriverC08.step⟩
   | "C09" => some ⟨Forest, {}, DriverC09.step⟩
   | "C10" => some ⟨DriverC10.St, {}, DriverC10.step⟩
+  | "C11" => some ⟨DriverC11.St, {}, DriverC11.step⟩
   | "C12" => some ⟨DriverC12.St, {}, DriverC12.step⟩
   | "C15" => some ⟨DriverC15.St, {}, DriverC15.step⟩
   | _ => none
